@@ -150,6 +150,13 @@ def st_solver(draw, spec, p=4):
     return "general"
 
 
+def st_warm(solver):
+    """What was asked of the solver object before: nothing (mostly), its LTE velocity, or (template) maxAl."""
+    if solver == "template":
+        return st.sampled_from([None, None, "lte", "maxal"])
+    return st.sampled_from([None, None, None, None, None, "lte", "maxal"])
+
+
 @st.composite
 def st_matching(draw, tier):
     spec = draw(Z.st_eos(families=Z.FAMILIES, weights=FAMILY_WEIGHTS[tier], twostep_variants=("plain", "plain", "strongT")))
@@ -160,7 +167,8 @@ def st_matching(draw, tier):
         tol = [1e-6, 1e-6]
     if spec["family"] == "traced" and tier == "quick":
         tol = [1e-6, 1e-10]
-    return {"kind": "matching", "eos": spec, "tol": tol, "solver": draw(st_solver(spec)),
+    solver = draw(st_solver(spec))
+    return {"kind": "matching", "eos": spec, "tol": tol, "solver": solver, "warm": draw(st_warm(solver)),
             "vclass": draw(st.sampled_from(VCLASSES)), "u": draw(st.floats(0.0, 1.0))}
 
 
@@ -168,7 +176,8 @@ def st_matching(draw, tier):
 def st_jouguet(draw, tier):
     spec = draw(Z.st_eos(families=Z.ANALYTIC_FAMILIES if tier == "quick" else Z.FAMILIES,
                          weights=None if tier == "quick" else FAMILY_WEIGHTS[tier], twostep_variants=("plain", "plain", "strongT")))
-    return {"kind": "jouguet", "eos": spec, "tol": draw(Z.st_tolerances()), "solver": draw(st_solver(spec, 3))}
+    solver = draw(st_solver(spec, 3))
+    return {"kind": "jouguet", "eos": spec, "tol": draw(Z.st_tolerances()), "solver": solver, "warm": draw(st_warm(solver))}
 
 
 @st.composite
@@ -221,6 +230,7 @@ class Ctx:
         self._vJ_why = None
         self.fallback = {"n": 0}
         self.hyd = None
+        self.warm = None
 
     def vJ_ref(self):
         """(vJ, TmJ) of the reference, cross-checked by the independent minimisation; None if unavailable."""
@@ -245,9 +255,26 @@ class Ctx:
 
             hyd.template.findMatching = counted
             self.hyd = hyd
+            self._warm_up(hyd)
+            self.fallback["n"] = 0
             return hyd, hyd.vMin, math.sqrt(float(self.th.csqLowT(self.Tn))), hyd.vJ
         tm = Z.build_template(self.th, self.rtol, self.atol)
+        self._warm_up(tm)
         return tm, tm.vMin, float(tm.cb), tm.vJ
+
+    def _warm_up(self, solver):
+        """Call history on the solver object: the LTE velocity (which scans other transition strengths internally)
+        or the strongest transition is asked for BEFORE the matching / vJ / window are (as WallGoManager does).
+        The object's answers afterwards are judged exactly as those of a fresh object."""
+        from WallGo import WallGoError
+
+        try:
+            if self.warm == "lte":
+                solver.findvwLTE()
+            elif self.warm == "maxal":
+                getattr(solver, "template", solver).maxAl(100.0)
+        except (WallGoError, ValueError, TypeError):
+            pass
 
 
 def setup(case, v, spec=None):
@@ -263,7 +290,11 @@ def setup(case, v, spec=None):
         v.info["zoo_error"] = str(exc)[:200]
         v.discarded("zoo:traced-unhealthy")
         return None
-    return Ctx(th, meta, rtol, atol, case.get("solver", "general"))
+    ctx = Ctx(th, meta, rtol, atol, case.get("solver", "general"))
+    ctx.warm = case.get("warm")
+    if ctx.warm:
+        v.label(f"warm:{ctx.solver}:{ctx.warm}")
+    return ctx
 
 
 def ref_allow(ctx, vw, vp):
